@@ -421,3 +421,80 @@ def kill_pool(pool: concurrent.futures.ProcessPoolExecutor) -> None:
 
 def run_fresh_history(history: list, spec: dict, timeout_s: float = 3600.0) -> dict:
     return run_fresh_histories([(history, spec)], 1, timeout_s)[0]
+
+
+# ----------------------------------------------------------------------------- screening (minimiser)
+def screen_chunk(args: tuple) -> list:
+    """In-process screening of candidate specs: for each, the variant that violated `clause` or None.
+
+    Thread-world candidates whose recorded schedule no longer fails are retried under a few other
+    scheduler seeds.  Results are hints only: the caller confirms every hit in a brand-new process.
+    """
+    specs, clause, extra = args
+    if not _worker_ready:
+        _worker_init()
+    from . import runner
+
+    out = []
+    for spec in specs:
+        if any(h is not None for h in out):
+            # this process has just seen a violation: if the implementation under test keeps state
+            # outside the context, whatever it says from now on is unreliable, and the caller restarts
+            # from the first confirmed hit anyway
+            out.append(None)
+            continue
+        variants = [spec]
+        if spec.get('world') == 'thread':
+            for k in range(1, extra + 1):
+                v = dict(spec)
+                v['decisions'] = None
+                v['switches'] = None
+                v['seed'] = int(spec.get('seed') or 0) + 7919 * k
+                variants.append(v)
+        hit = None
+        for v in variants:
+            res = runner.run_spec(v)
+            after_run()
+            if res['status'] == 'violation' and res['violation']['clause'] == clause:
+                hit = dict(v)
+                if res.get('decisions') is not None:
+                    hit['decisions'] = res['decisions']
+                    hit['switches'] = res.get('switch_log')
+                break
+        out.append(hit)
+    return out
+
+
+class Screener:
+    """A pool of sacrificial workers for screen_chunk; rebuilt after every hit (a worker that has seen a
+    violation of a broken implementation may be left in a dirty state)."""
+
+    def __init__(self, workers: int = 16, extra_seeds: int = 4):
+        self.workers = workers
+        self.extra = extra_seeds
+        self.pool = None
+
+    def __call__(self, specs: list[dict], clause: str) -> list:
+        if self.pool is None:
+            self.pool = make_pool(self.workers)
+        n = len(specs)
+        size = max(1, min(8, (n + self.workers - 1) // self.workers))
+        futs = [self.pool.submit(screen_chunk, (specs[k : k + size], clause, self.extra)) for k in range(0, n, size)]
+        out: list = []
+        try:
+            for f in futs:
+                out.extend(f.result(timeout=1800))
+        except Exception:
+            # a dead or wedged screening worker only costs the hints
+            kill_pool(self.pool)
+            self.pool = None
+            return [s for s in specs]  # everything unscreened: confirm them all the slow way
+        if any(h is not None for h in out):
+            kill_pool(self.pool)
+            self.pool = None
+        return out
+
+    def close(self) -> None:
+        if self.pool is not None:
+            kill_pool(self.pool)
+            self.pool = None
